@@ -1572,6 +1572,11 @@ impl<'i, R: RuleType> ParserState<'i, R> {
     /// ```
     #[inline]
     pub fn stack_peek(self: Box<Self>) -> ParseResult<Box<Self>> {
+        // Once the call limit has refused a call, the pushes this peek relies on may have
+        // been skipped: the parse is being abandoned, so fail instead of panicking.
+        if self.call_tracker.refused && self.stack.is_empty() {
+            return Err(self);
+        }
         let string = self
             .stack
             .peek()
@@ -1605,6 +1610,10 @@ impl<'i, R: RuleType> ParserState<'i, R> {
     /// ```
     #[inline]
     pub fn stack_pop(mut self: Box<Self>) -> ParseResult<Box<Self>> {
+        // See `stack_peek`: after a refused call an empty stack is not a grammar bug.
+        if self.call_tracker.refused && self.stack.is_empty() {
+            return Err(self);
+        }
         let string = self
             .stack
             .pop()
